@@ -203,12 +203,12 @@ func (e *Engine) symRangeNext(st *State, fr *Frame, in *ssa.Next, it *rangeIter)
 	arrSort := canonSort(fmt.Sprintf("(Array %s %s)", sr.keySort.Name, sr.valSort.Name))
 	cur := e.fresh(st, "it", arrSort)
 	visited := e.fresh(st, "visited", canonSort(fmt.Sprintf("(Array %s Bool)", sr.keySort.Name)))
+	_ = e.havocLoopTargets(st, fr, in.Block())
 	nobj := obj.clone()
 	nobj.Arr = cur
 	nobj.NilT = TFalse
 	nobj.Fresh = false
 	st.heap[sr.cell] = nobj
-	_ = e.havocLoopTargets(st, fr, in.Block())
 	for _, t := range e.evalInvariant(st, cls, cur, sr.m0, visited, true) {
 		st.assume(t)
 	}
@@ -381,20 +381,37 @@ func (e *Engine) havocMap(st *State, v Value) {
 	st.heap[mv.Cell] = n
 }
 
+// sideClone returns a snapshot of st shared by all side obligations raised at the same point of the same path.
+func (e *Engine) sideClone(st *State) *State {
+	if e.lastSideSrc == st && e.lastSidePC == len(st.pc) && e.lastSideTrace == len(st.trace) && e.lastSideClone != nil {
+		return e.lastSideClone
+	}
+	e.lastSideSrc, e.lastSidePC, e.lastSideTrace = st, len(st.pc), len(st.trace)
+	e.lastSideClone = st.clone()
+	return e.lastSideClone
+}
+
 // addReachObl: a must-fail obligation "false" at a loop back edge (refuted = the body is reachable).
 func (e *Engine) addReachObl(st *State, cl Clause, fn string) {
-	tmp := st.clone()
-	e.instantiateAll(tmp, nil, nil)
-	e.sideObls = append(e.sideObls, sideObl{id: fn + ".loop-body-reachable@" + fmt.Sprint(cl.Line), kind: "mustfail", clause: "false (vacuity guard: loop body reachable)",
-		props: cl.Props, line: cl.Line, header: e.scriptHeader(tmp, nil), goal: TFalse})
+	id := fn + ".loop-body-reachable@" + fmt.Sprint(cl.Line)
+	if e.reachCount == nil {
+		e.reachCount = map[string]int{}
+	}
+	e.reachCount[id]++
+	if e.reachCount[id] > 3 {
+		return // a few witnesses are enough for the vacuity guard
+	}
+	e.sideObls = append(e.sideObls, sideObl{id: id, kind: "mustfail", clause: "false (vacuity guard: loop body reachable)",
+		props: cl.Props, line: cl.Line, st: e.sideClone(st), goal: TFalse})
 }
 
 // addSideObl records an obligation generated in the middle of a path (loop invariants, call-site requires).
 func (e *Engine) addSideObl(st *State, cl Clause, phase string, goal Term) {
-	tmp := st.clone()
-	e.instantiateAll(tmp, nil, []Term{goal})
-	e.sideObls = append(e.sideObls, sideObl{id: cl.Name + "." + phase, kind: "invariant", clause: cl.Src, props: cl.Props, line: cl.Line,
-		header: e.scriptHeader(tmp, nil), goal: goal})
+	so := sideObl{id: cl.Name + "." + phase, kind: "invariant", clause: cl.Src, props: cl.Props, line: cl.Line, goal: goal}
+	if !goal.IsTrue() {
+		so.st = e.sideClone(st)
+	}
+	e.sideObls = append(e.sideObls, so)
 }
 
 // Cursor rule: rows.Next() yields "no more rows" or an arbitrary row that satisfies the statement's WHERE
@@ -477,7 +494,15 @@ func (e *Engine) callByContract(st *State, fn *ssa.Function, ct *Contract, args 
 		}
 	}
 	pre := st.clone()
-	st.addTrace(TraceEv{Kind: "call:" + ct.Short, Pos: pos, Args: args})
+	var snap interface{}
+	if len(args) > 0 {
+		if p, ok := args[0].(VPtr); ok {
+			if sv, ok := e.load(st, p).(VStruct); ok {
+				snap = sv // value of the receiver at the time of the call
+			}
+		}
+	}
+	st.addTrace(TraceEv{Kind: "call:" + ct.Short, Pos: pos, Args: args, Extra: snap})
 	// requires at the call site
 	envR := &rEnv{e: e, pre: pre, post: st, vars: copyVars(vars), typs: typs, specs: e.contracts.specs, pol: 1}
 	for _, l := range ct.Lets {
@@ -582,8 +607,8 @@ func (e *Engine) genericLoopHeader(st *State, fr *Frame, b *ssa.BasicBlock) (han
 	for _, in := range b.Instrs {
 		if nx, ok := in.(*ssa.Next); ok && !nx.IsString {
 			if itv, ok := fr.regs[nx.Iter].(VAbs); ok && itv.Kind == "iter" {
-				if it, ok := itv.Data.(*rangeIter); ok && it.sym != nil {
-					return false, false
+				if it, ok := itv.Data.(*rangeIter); ok && (it.sym != nil || it.arbitrary == nil) {
+					return false, false // symbolic scalar maps: rule at Next; concrete maps: plain iteration
 				}
 			}
 		}
@@ -696,6 +721,14 @@ func (e *Engine) evalLoopClauses(st *State, fr *Frame, cls []Clause, iterKey str
 	}
 	for _, fv := range fr.fn.FreeVars {
 		if v, ok := fr.regs[fv]; ok {
+			// a captured variable is a pointer to its cell: contracts name the variable, i.e. its current value
+			if p, ok := v.(VPtr); ok {
+				if pt, ok := fv.Type().Underlying().(*types.Pointer); ok {
+					vars[fv.Name()] = e.load(st, p)
+					typs[fv.Name()] = pt.Elem()
+					continue
+				}
+			}
 			vars[fv.Name()] = v
 			typs[fv.Name()] = fv.Type()
 		}
@@ -710,6 +743,20 @@ func (e *Engine) evalLoopClauses(st *State, fr *Frame, cls []Clause, iterKey str
 		if iterKey != "" {
 			if h, ok := st.loopHead[iterKey]; ok {
 				env.head = h.clone()
+			}
+		}
+		// the lets of the enclosing function's contract are available to its loop clauses
+		for f := fr.fn; f != nil; f = f.Parent() {
+			if ct := e.contracts.lookup(fnName(f)); ct != nil {
+				for _, l := range ct.Lets {
+					v := env.eval(l.Node)
+					if env.err != nil {
+						env.err = nil
+						continue
+					}
+					env.vars[l.Name] = v
+				}
+				break
 			}
 		}
 		if assume {
@@ -824,7 +871,7 @@ func usesTrace(n *rNode, ct *Contract) bool {
 		switch n.Text {
 		case "count", "iter", "callarg", "callpos", "pushpos", "pushes", "lastpushed", "delivered", "nolocks", "held",
 			"sqlAllInTxn", "writesAllInTxn", "oneTxn", "casDrawnInTxn", "lockedThroughout", "postsAfterCommit", "stmtsScoped",
-			"tracepos", "scanned", "callret", "cursorWhere", "cursorOrderBy", "cursorCount", "cursorRow", "cursorId", "lenlist", "intxn":
+			"tracepos", "scanned", "callret", "callrecv", "rangekey", "cursorWhere", "cursorOrderBy", "cursorCount", "cursorRow", "cursorId", "lenlist", "intxn":
 			return true
 		}
 	case "id":
